@@ -35,6 +35,7 @@ func main() {
 	selfIn := flag.String("selftest-in", "", "thorough: merge self-test results from this file into the evidence")
 	genGuards := flag.Bool("gen-guards", false, "maintenance: write the guarded-by reference table (guards.json) from the current tree")
 	genFields := flag.Bool("gen-fields", false, "maintenance: write the constructor/copy/reset field table (fields.json) from the current tree")
+	genDefers := flag.Bool("gen-defers", false, "maintenance: write the deferred-cleanup table (defers.json) from the current tree")
 	genErrors := flag.Bool("gen-errors", false, "maintenance: write the error-report reference table (errors.json) from the current tree")
 	genNames := flag.Bool("gen-names", false, "maintenance: write the frozen parameter/local name table (names.json) from the current tree")
 	flag.Parse()
@@ -172,6 +173,15 @@ func main() {
 			os.Exit(2)
 		}
 		fmt.Printf("fields.json written (%d constructors/copies/resets)\n", n)
+		return
+	}
+	if *genDefers {
+		n, err := props.GenDeferTable(p, *verif)
+		if err != nil {
+			fmt.Fprintln(os.Stderr, "lkcheck:", err)
+			os.Exit(2)
+		}
+		fmt.Printf("defers.json written (%d deferred callees)\n", n)
 		return
 	}
 	if *genErrors {
